@@ -37,6 +37,9 @@ def tri_groups(props):
         "UL": ("_mzd_trsm_upper_left", win + ["_mzd_trsm_upper_left_russian", "_mzd_addmul"], False),
         "TRTRI": ("mzd_trtri_upper", win + ["mzd_trtri_upper_russian", "_mzd_trsm_upper_left", "_mzd_trsm_upper_right"], False),
         "UR_TRTRI": ("_mzd_trsm_upper_right_trtri", ["mzd_extract_u", "mzd_trtri_upper", "mzd_mul", "mzd_copy", "mzd_free"], True),
+        # the checked public wrappers: conforming operands reach the worker, nothing else happens
+        "LL_W": ("mzd_trsm_lower_left", ["_mzd_trsm_lower_left"], False), "UL_W": ("mzd_trsm_upper_left", ["_mzd_trsm_upper_left"], False),
+        "UR_W": ("mzd_trsm_upper_right", ["_mzd_trsm_upper_right"], False), "LR_W": ("mzd_trsm_lower_right", ["_mzd_trsm_lower_right"], False),
     }
     fam = ["mzd_trsm_upper_right", "mzd_trsm_lower_right", "mzd_trsm_lower_left", "mzd_trsm_upper_left", "_mzd_trsm_upper_right", "_mzd_trsm_lower_right", "_mzd_trsm_lower_left",
            "_mzd_trsm_upper_left", "mzd_trtri_upper", "_mzd_trsm_upper_right_trtri", "_mzd_trsm_upper_right_base", "_mzd_trsm_lower_right_base", "_mzd_trsm_pack", "_mzd_trsm_unpack"]
@@ -44,7 +47,7 @@ def tri_groups(props):
         d = {"H_" + name: None}
         if ghost:
             d["VP_TRI_GHOST"] = None
-        rec = fn != "_mzd_trsm_upper_right_trtri"
+        rec = fn != "_mzd_trsm_upper_right_trtri" and not name.endswith("_W")
         gs.append(Group(gid="S." + fn, props=list(props), harness="s_tri.c", function=fn, layer="S", defines=d, tus=["misc", "/verif/stubs/libm_any.c"], native_tus=[],
                         enforce_rec=[fn] if rec else [], enforce=[] if rec else [fn], replace=repl, remove_bodies=[f for f in fam if f != fn and f not in repl],
                         unwindset=({"%s%s.%d" % (fn, sfx, n): 1 for sfx in ("", "_wrapped_for_contract_checking") for n in range(3)} if name in ("LL", "UL") else {}),
